@@ -1,0 +1,46 @@
+//! Read-only snapshot of the private book-keeping tables of a [Bdd][super::Bdd].
+//! Only available with the cargo feature `verif_hooks`; it exposes state for external
+//! audits and does not change anything.
+
+use crate::datatypes::*;
+
+/// Plain copies of the private tables of a [Bdd][super::Bdd].
+#[derive(Debug, Clone, Default)]
+pub struct Snapshot {
+    /// unique table (node -> term)
+    pub unique: Vec<(BddNode, Term)>,
+    /// variable dependencies per node (only with feature `variablelist`)
+    pub var_deps: Option<Vec<Vec<Var>>>,
+    /// count cache (term -> (model counts, path counts, depth))
+    pub count_cache: Vec<(Term, CountNode)>,
+    /// memo table of `if_then_else`
+    pub ite_cache: Vec<((Term, Term, Term), Term)>,
+    /// memo table of `restrict`
+    pub restrict_cache: Vec<((Term, Var, bool), Term)>,
+}
+
+impl super::Bdd {
+    /// Returns copies of all private tables.
+    pub fn verif_snapshot(&self) -> Snapshot {
+        Snapshot {
+            unique: self.cache.iter().map(|(k, v)| (*k, *v)).collect(),
+            #[cfg(feature = "variablelist")]
+            var_deps: Some(
+                self.var_deps
+                    .iter()
+                    .map(|set| set.iter().copied().collect())
+                    .collect(),
+            ),
+            #[cfg(not(feature = "variablelist"))]
+            var_deps: None,
+            count_cache: self
+                .count_cache
+                .borrow()
+                .iter()
+                .map(|(k, v)| (*k, *v))
+                .collect(),
+            ite_cache: self.ite_cache.iter().map(|(k, v)| (*k, *v)).collect(),
+            restrict_cache: self.restrict_cache.iter().map(|(k, v)| (*k, *v)).collect(),
+        }
+    }
+}
